@@ -81,6 +81,24 @@ def c20_epilogue(steps, i):
             blk(5000, [{"k": "convert_erc20", "from": "a6", "to": "a2", "id": 2, "amt": "200"},
                        {"k": "convert_coin", "from": "a3", "to": "a1", "id": 2, "amt": "900"}]),
         ]
+    if i % 6 == 3:
+        # a transaction reaches the mempool (CheckTx on every node) while the EVM parameters admit it - an Ethereum
+        # transaction signed without chain id -, governance tightens the parameters, the node restarts, and the
+        # transaction is included afterwards: what a node learnt in CheckTx is process state
+        votes2 = [dict(v, id=pid + 1) for v in votes]
+        return [
+            blk(5000, [{"k": "gov_evm_params", "from": "a1", "fail": False, "allow": True}] + votes),
+            blk(25000, [{"k": "send", "from": "a1", "to": "a2", "amt": "1"}]),
+            {"ev": "mempool", "txs": [{"k": "eth_unprotected", "from": "a4", "to": "a5", "amt": "1000"},
+                                      {"k": "eth_send", "from": "a5", "to": "a4", "amt": "1000", "extraGas": 0}]},
+            blk(5000, [{"k": "eth_unprotected", "from": "a6", "to": "a5", "amt": "1000"},
+                       {"k": "gov_evm_params", "from": "a2", "fail": False, "allow": False}] + votes2),
+            blk(25000, [{"k": "send", "from": "a1", "to": "a2", "amt": "1"}]),
+            {"ev": "restart"},
+            blk(5000, [{"k": "pending", "idx": 0}, {"k": "pending", "idx": 1}, {"k": "eth_unprotected", "from": "a6", "to": "a5", "amt": "1000"},
+                       {"k": "deploy", "from": "a2", "slots": 2}]),
+            blk(5000, [{"k": "eth_send", "from": "a4", "to": "a6", "amt": "1000", "extraGas": 0}, {"k": "pc_delegate", "from": "a2", "val": 1, "amt": "1000"}]),
+        ]
     if i % 6 == 1:
         # "right after blocks that change parameters": a module's parameters are moved to legal edge values
         # (zero, empty, the other flag), the node restarts after the block in which the proposal passes
